@@ -196,7 +196,151 @@ def gen_cases(rng, tier):
             else:
                 ops.append(["t_split", a])
         cases.append({"ops": ops, "fork": False, "tags": ["numkind:" + kind]})
+    for _ in range(30 if tier == "thorough" else 6):
+        cases.append(gen_registry_case(rng))
     return cases
+
+
+# ---- terms over REGISTRY units --------------------------------------------
+# (the real Unit._get_factor / norm_sort_key / normalized_definition inside
+# term reduction; types without reference unit with several units and with
+# multiples of different base units of theirs)
+
+def gen_registry_case(rng):
+    from histgen import HistGen
+    g = HistGen(rng, with_invalid=False, split_items=.4)
+    steps = [st for st in g.history(rng.randint(8, 14))]
+    steps.append(g.base_class(refless=True))
+    for _ in range(3):
+        steps.append(g.refless_unit())
+    for _ in range(4):
+        steps.append(g.refless_multiple())
+    steps = [st for st in steps if st is not None and st["expect"] == "ok"]
+    w = g.w
+    world = {}
+    for sy, u in w.units.items():
+        if u["scale"] is not None:
+            vec = {"c:" + b: e for b, e in u["dim"].items()}
+            world[sy] = [rat(u["scale"]), vec, w.classes[u["cls"]]["ref"], u["cls"]]
+        elif "base" in u:
+            world[sy] = [rat(u["base"][1]), {"u:" + u["base"][0]: 1}, u["base"][0], u["cls"]]
+        else:
+            world[sy] = ["1/1", {"u:" + sy: 1}, sy, u["cls"]]
+    syms = sorted(world)
+    ops = [st["op"] for st in steps]
+    nsetup = len(ops)
+
+    def term(n):
+        items = []
+        if rng.random() < .4:
+            items.append(("n", rng.choice([Fraction(3), Fraction(1, 2), Fraction(1000), Fraction(-7, 5)]), rng.choice([1, 1, 2, -1])))
+        for _ in range(rng.randint(1, n)):
+            items.append(("u", rng.choice(syms), rng.choice([-2, -1, 1, 1, 2, 3, 0])))
+        rng.shuffle(items)
+        return items
+
+    def fmt(items):
+        return ";".join((f"n:{rat(v)}^{e}" if k == "n" else f"u:{v}^{e}") for k, v, e in items) or "-"
+
+    for _ in range(45):
+        a = term(4)
+        r = rng.random()
+        if r < .3:
+            ops.append(["rt_norm", fmt(a)])
+        elif r < .45:
+            ops.append(["rt_mk", fmt(a)])
+        else:
+            if rng.random() < .6:
+                # equal by construction: shuffled, one unit replaced by what it is defined as
+                b = list(a)
+                rng.shuffle(b)
+                idx = [i for i, it in enumerate(b) if it[0] == "u" and world[it[1]][2] != it[1]]
+                if idx:
+                    i = rng.choice(idx)
+                    _, sy, e = b[i]
+                    f, _, base, _ = world[sy]
+                    b[i:i + 1] = [("n", parse_rat(f), e), ("u", base, e)]
+            else:
+                b = term(4)
+            ops.append(["rt_eq", fmt(a), fmt(b)])
+    return {"ops": ops, "fork": True, "registry": True, "nsetup": nsetup, "world": world,
+            "tags": ["registry-units"]}
+
+
+def _rden(world, text):
+    f, vec = Fraction(1), {}
+    if text == "-":
+        return f, vec
+    for part in text.split(";"):
+        el, _, e = part.rpartition("^")
+        e = int(e)
+        if el.startswith("n:"):
+            v = parse_rat(el[2:])
+            if v == 0 and e < 0:
+                raise Undefined
+            f *= v ** e
+        elif el.startswith("u:"):
+            k, v2, _, _ = world[el[2:]]
+            f *= parse_rat(k) ** e
+            for b, be in v2.items():
+                vec[b] = vec.get(b, 0) + be * e
+        else:
+            raise Undefined
+    return f, {b: e for b, e in vec.items() if e}
+
+
+def oracle_registry(case, impl):
+    world = case["world"]
+    fails = []
+    for i, (o, out) in enumerate(zip(case["ops"], impl)):
+        if i < case["nsetup"]:
+            if not out.startswith("ok"):
+                fails.append({"site": "setup", "msg": f"{o} -> {out}"})
+            continue
+        if "FLOAT" in out:
+            fails.append({"site": "term:float", "msg": f"{o} -> {out}"})
+            continue
+        if not out.startswith("ok"):
+            fails.append({"site": "term:raises", "msg": f"{o} -> {out}"})
+            continue
+        try:
+            if o[0] in ("rt_mk", "rt_norm"):
+                want, got = _rden(world, o[1]), _rden(world, out[3:])
+                if want != got:
+                    fails.append({"site": "term:denotation", "msg": f"{o} -> {out}: denotes {got}, expected {want}"})
+                if o[0] == "rt_norm" and out[3:] != "-":
+                    parts = out[3:].split(";")
+                    nums = [p for p in parts if p.startswith("n:")]
+                    us = [p.rpartition("^")[0][2:] for p in parts if p.startswith("u:")]
+                    probs = []
+                    if len(nums) > 1 or (nums and not parts[0].startswith("n:")):
+                        probs.append("numeric item not single / not first")
+                    if nums and (not nums[0].endswith("^1") or nums[0] == "n:1/1^1"):
+                        probs.append("numeric item with exponent != 1 or value 1")
+                    if len(set(us)) != len(us):
+                        probs.append("unit occurs twice")
+                    if any(world[u][2] != u or (world[u][0] != "1/1") for u in us):
+                        probs.append("non-base unit in normal form")
+                    if any(p.endswith("^0") for p in parts):
+                        probs.append("zero exponent")
+                    if probs:
+                        fails.append({"site": "term:normal-form", "msg": f"{o} -> {out}: {probs}"})
+            else:
+                da, db = _rden(world, o[1]), _rden(world, o[2])
+                eq, heq = "eq=true" in out, "hasheq=true" in out
+                if eq != (da == db):
+                    site = "term:eq-vs-denotation"
+                    atoms = [b[2:] for b in da[1] if b.startswith("u:")]
+                    classes = [world[a][3] for a in atoms]
+                    if da == db and len(set(classes)) < len(classes):
+                        site = "term:same-key-order"       # known finding D5
+                    fails.append({"site": site, "msg": f"{o} -> {out}: denotations "
+                                  f"{'equal' if da == db else 'differ'}"})
+                if eq and not heq:
+                    fails.append({"site": "term:eq-hash", "msg": f"{o} -> {out}"})
+        except Undefined:
+            continue
+    return fails
 
 
 def search_cases(rng, focus, broken):
@@ -294,6 +438,8 @@ def shared_key_nonconvertible(info, items):
 
 
 def oracle(case, impl):
+    if case.get("registry"):
+        return oracle_registry(case, impl)
     info = env_of(case["ops"])
     fails = []
     for o, out in zip(case["ops"], impl):
@@ -379,6 +525,9 @@ def _mk_items(s):
 
 def nontrivial_key(case, impl):
     keys = set()
+    if case.get("registry"):
+        return {(o[0], o[1].count(";"), out[:12]) for o, out in
+                list(zip(case["ops"], impl))[case["nsetup"]:]}
     for o, out in zip(case["ops"], impl):
         if o[0].startswith("t_") and out.startswith("ok"):
             ins = [parse_items(x) for x in o[1:] if (":" in x or x == "-")]
